@@ -206,6 +206,117 @@ key_checks(hx_rng *g, int n)
         }
 }
 
+
+/* 3GPP IV generators against the bit layouts of the specifications (TS 35.201 f8/f9, TS 35.215
+ * UEA2/UIA2, 128-EEA3/EIA3 v1.7), written here from the specification text. The output buffer is
+ * pre-filled (zeros / ones / random): every IV byte must be defined by the call alone, nothing beyond
+ * the IV may be written. */
+static void
+put_be32(uint8_t *p, uint32_t v)
+{
+        p[0] = (uint8_t) (v >> 24);
+        p[1] = (uint8_t) (v >> 16);
+        p[2] = (uint8_t) (v >> 8);
+        p[3] = (uint8_t) v;
+}
+
+static void
+ivgen_checks(hx_rng *g, int n)
+{
+        static const char *const names[6] = { "iv_zuc_eea3", "iv_zuc_eia3", "iv_kasumi_f8", "iv_kasumi_f9",
+                                              "iv_snow3g_f8", "iv_snow3g_f9" };
+        for (int it = 0; it < n; it++) {
+                for (int w = 0; w < 6; w++) {
+                        uint32_t count = (uint32_t) hx_rand(g), fresh = (uint32_t) hx_rand(g);
+                        if (it % 5 == 1)
+                                count = 0xffffffffu;
+                        if (it % 5 == 2)
+                                count = 0, fresh = 0;
+                        uint8_t bearer = (uint8_t) hx_below(g, 32), dir = (uint8_t) hx_below(g, 2);
+                        uint8_t buf[32], pre[32], exp[16];
+                        int fill = it % 3, ivsz = (w == 2 || w == 3) ? 8 : 16, rc = -9;
+                        if (fill == 0)
+                                memset(buf, 0, sizeof(buf));
+                        else if (fill == 1)
+                                memset(buf, 0xff, sizeof(buf));
+                        else
+                                hx_fill(g, buf, sizeof(buf));
+                        memcpy(pre, buf, sizeof(buf));
+                        memset(exp, 0, sizeof(exp));
+                        switch (w) {
+                        case 0: /* 128-EEA3: COUNT | BEARER DIR 00 | 0 0 0 | repeat */
+                                rc = zuc_eea3_iv_gen(count, bearer, dir, buf);
+                                put_be32(exp, count);
+                                exp[4] = (uint8_t) ((bearer << 3) | (dir << 2));
+                                memcpy(exp + 8, exp, 8);
+                                break;
+                        case 1: /* 128-EIA3 */
+                                rc = zuc_eia3_iv_gen(count, bearer, dir, buf);
+                                put_be32(exp, count);
+                                exp[4] = (uint8_t) (bearer << 3);
+                                memcpy(exp + 8, exp, 8);
+                                exp[8] ^= (uint8_t) (dir << 7);
+                                exp[14] ^= (uint8_t) (dir << 7);
+                                break;
+                        case 2: /* KASUMI f8: COUNT || BEARER || DIRECTION || 0^26 */
+                                rc = kasumi_f8_iv_gen(count, bearer, dir, buf);
+                                put_be32(exp, count);
+                                exp[4] = (uint8_t) ((bearer << 3) | (dir << 2));
+                                break;
+                        case 3: /* KASUMI f9: COUNT || FRESH */
+                                rc = kasumi_f9_iv_gen(count, fresh, buf);
+                                put_be32(exp, count);
+                                put_be32(exp + 4, fresh);
+                                break;
+                        case 4: /* UEA2: IV3 = COUNT, IV2 = BEARER||DIR||0^26, IV1 = IV3, IV0 = IV2 */
+                                rc = snow3g_f8_iv_gen(count, bearer, dir, buf);
+                                put_be32(exp, count);
+                                put_be32(exp + 4, ((uint32_t) bearer << 27) | ((uint32_t) dir << 26));
+                                memcpy(exp + 8, exp, 8);
+                                break;
+                        default: /* UIA2: COUNT, FRESH, COUNT ^ DIR<<31, FRESH ^ DIR<<15 */
+                                rc = snow3g_f9_iv_gen(count, fresh, dir, buf);
+                                put_be32(exp, count);
+                                put_be32(exp + 4, fresh);
+                                put_be32(exp + 8, count ^ ((uint32_t) dir << 31));
+                                put_be32(exp + 12, fresh ^ ((uint32_t) dir << 15));
+                                break;
+                        }
+                        tr_begin("Key");
+                        tr_str("variant", V->name);
+                        tr_str("what", names[w]);
+                        tr_int("kl", ivsz);
+                        tr_int("cls", fill);
+                        tr_int("enc_eq", rc == 0 && memcmp(buf, exp, (size_t) ivsz) == 0);
+                        tr_int("dec_eq", memcmp(buf + ivsz, pre + ivsz, sizeof(buf) - (size_t) ivsz) == 0);
+                        tr_end();
+                }
+        }
+        /* refused arguments: bearer >= 32, direction > 1 -> -1 and the buffer untouched */
+        for (int w = 0; w < 6; w++) {
+                uint8_t buf[16], pre[16];
+                hx_fill(g, buf, sizeof(buf));
+                memcpy(pre, buf, sizeof(buf));
+                int r1 = 0, r2 = 0;
+                switch (w) {
+                case 0: r1 = zuc_eea3_iv_gen(1, 32, 0, buf); r2 = zuc_eea3_iv_gen(1, 3, 2, buf); break;
+                case 1: r1 = zuc_eia3_iv_gen(1, 32, 0, buf); r2 = zuc_eia3_iv_gen(1, 3, 2, buf); break;
+                case 2: r1 = kasumi_f8_iv_gen(1, 32, 0, buf); r2 = kasumi_f8_iv_gen(1, 3, 2, buf); break;
+                case 3: r1 = kasumi_f9_iv_gen(1, 1, NULL); r2 = -1; break;
+                case 4: r1 = snow3g_f8_iv_gen(1, 32, 0, buf); r2 = snow3g_f8_iv_gen(1, 3, 2, buf); break;
+                default: r1 = snow3g_f9_iv_gen(1, 1, 2, buf); r2 = snow3g_f9_iv_gen(1, 1, 0, NULL); break;
+                }
+                tr_begin("Key");
+                tr_str("variant", V->name);
+                tr_str("what", names[w]);
+                tr_int("kl", 0);
+                tr_int("cls", 9);
+                tr_int("enc_eq", r1 == -1 && r2 == -1);
+                tr_int("dec_eq", memcmp(buf, pre, sizeof(buf)) == 0);
+                tr_end();
+        }
+}
+
 static long
 jint(const char *line, const char *key)
 {
@@ -368,6 +479,7 @@ drv_ref(int argc, char **argv)
         }
         hx_force_len = -1;
         key_checks(&g, nkeys);
+        ivgen_checks(&g, nkeys);
         fclose(hx_trace);
         fprintf(stderr, "{\"jobs\":%ld,\"with_reference\":%ld,\"abi_viol\":%d}\n", nref, nhave, hx_abi_viol_total);
         return 0;
